@@ -13,7 +13,7 @@ TRUSTED = [
     'the ICAP/NCAPS slicing in window.window_read) -- tied to the code by exact correspondence on every run',
     'C12/Arccos.v ties the code formula arccos(1-|cm|) - arccos(x.p) >= 0 to the algebraic test over Coq Reals '
     '(stdlib axioms: ClassicalDedekindReals.sig_forall_dec, sig_not_dec, functional_extensionality_dep, Classical_Prop.classic); '
-    'numpy arccos/dot rounding is outside: generated points keep |1 - x.p - |cm|| > 1e-9',
+    'numpy arccos/dot rounding is outside: generated points keep |1 - x.p - |cm|| > 1e-11',
     'astropy FITS/Table I/O, the .ply text reader and numpy angles_to_x are exercised, not modelled (the model is given the '
     'exact rational values of the doubles the implementation holds)',
     'harness/impl/c12_impl.py writes the .ply / FITS / window_blist+window_bcaps files the readers are run on',
@@ -30,7 +30,7 @@ ASSUMPTIONS = [
 HEADER = '''From Coq Require Import ZArith QArith List. Import ListNotations.
 From PV Require Import C12.Model. Open Scope Z_scope.'''
 
-MARGIN = Fr(1, 10 ** 9)
+MARGIN = Fr(1, 10 ** 11)
 SIG_NAN = 'C12:membership:dot-product-outside-[-1,1]:arccos=NaN:impl=outside:property'
 SIG_IDX = 'C12:set_use_caps:index_list[i]-lookup:property'
 SIG_NEGSUM = 'C12:set_use_caps:cm-sum-test-without-abs:distinct-caps-dropped:property'
@@ -78,8 +78,25 @@ def unit(v):
     return [v[0] / n, v[1] / n, v[2] / n]
 
 
+def axis_unit(rng):
+    """Direction at RA exactly 0/90/180/270 (and sometimes Dec +-90): a component is ~6e-17 or ~1e-16, not 0,
+    because cos(radians(90)) is not exactly zero -- such values are written in exponent notation in text files."""
+    ra = math.radians(rng.choice([90.0, 90.0, 180.0, 270.0, 0.0]))
+    dec = math.radians(rng.choice([0.0, 90.0, -90.0, 30.0, -45.0, C.dyadic(rng, -80, 80, 3)]))
+    return [math.cos(ra) * math.cos(dec), math.sin(ra) * math.cos(dec), math.sin(dec)]
+
+
+def tiny_cm(rng):
+    """cap size between 1e-9 and 1e-4 (sub-degree caps), of either sign"""
+    c = rng.choice([1.0, 2.5, 9.5, 3.0517578125]) * 10.0 ** (-rng.randint(5, 9)) * (1 + rng.randrange(1 << 20) / (1 << 20))
+    c = min(max(c, 1e-9), 1e-4)
+    return -c if rng.random() < 0.6 else c
+
+
 def rand_unit(rng):
     t = rng.random()
+    if t > 0.9:
+        return axis_unit(rng)
     if t < 0.08:
         v = [0.0, 0.0, 0.0]
         v[rng.randrange(3)] = rng.choice([1.0, -1.0])
@@ -196,6 +213,15 @@ def gen_window_job(rng, allcaps, onecap, empty=False, nopoly=False):
                 u |= rng.getrandbits(3) << n       # stray bits above ncaps must be ignored
             p['use_caps'] = u
         polys.append(p)
+    if polys and rng.random() < 0.8:
+        # at least one cap whose text form needs exponent notation: axis centre (component ~6e-17) and/or tiny cm
+        p = rng.choice(polys)
+        c = rng.randrange(len(p['cm']))
+        t = rng.random()
+        if t < 0.7:
+            p['x'][c] = axis_unit(rng)
+        if t > 0.3:
+            p['cm'][c] = tiny_cm(rng)
     if empty:
         polys.insert(rng.randint(0, len(polys)), {'x': [], 'cm': [], 'use_caps': 0, 'id': -1, 'pixel': -1, 'weight': 1.0,
                                                    'str': 4.0 * math.pi})
@@ -215,6 +241,11 @@ def gen_window_job(rng, allcaps, onecap, empty=False, nopoly=False):
     for x, cm in allc:
         add(list(x), 'centre')
         add([-x[0], -x[1], -x[2]], 'antipode')
+    for x, cm in [xc for xc in allc if abs(xc[1]) <= 1e-4]:
+        for rel in (1e-2, -1e-2):
+            b = boundary_point(rng, x, cm, rel)
+            if b is not None:
+                add(b, 'boundary%+.0e' % rel)
     for x, cm in rng.sample(allc, min(len(allc), 6)):
         for rel in (1e-6, -1e-6):
             b = boundary_point(rng, x, cm, rel)
@@ -241,7 +272,7 @@ def gen_window_job(rng, allcaps, onecap, empty=False, nopoly=False):
     t = rng.random()
     job = {'f': 'window', 'polys': polys, 'pad': pad, 'ncaps': 0 if t < 0.6 else (-rng.randint(1, 3) if t < 0.65 else rng.randint(1, 7)),
            'pts': pts, 'radec': [radec_of(p) for p in pts], 'routes': routes, 'inpoly': True,
-           'kinds': kinds, 'allcaps': allcaps, 'onecap': onecap}
+           'kinds': kinds, 'allcaps': allcaps, 'onecap': onecap, 'ply_fmt': rng.choice(['repr', 'repr', 'e', 'g'])}
     if allcaps and not nopoly:
         # cap table with filler rows and the polygons' runs in shuffled order
         order = list(range(npoly))
@@ -263,7 +294,7 @@ def gen_window_job(rng, allcaps, onecap, empty=False, nopoly=False):
 
 def gen_cap_job(rng):
     x = rand_unit(rng)
-    cm = rand_cm(rng)
+    cm = rand_cm(rng) if rng.random() < 0.85 else tiny_cm(rng)
     pts, kinds = [], []
     for _ in range(4):
         pts.append(rand_unit(rng))
@@ -272,7 +303,7 @@ def gen_cap_job(rng):
     kinds.append('centre')
     pts.append([-x[0], -x[1], -x[2]])
     kinds.append('antipode')
-    for rel in (1e-6, -1e-6, 1e-3, -1e-3):
+    for rel in (1e-6, -1e-6, 1e-3, -1e-3, 1e-2, -1e-2):
         b = boundary_point(rng, x, cm, rel)
         if b is not None:
             pts.append(b)
